@@ -47,7 +47,7 @@ func vrfSetup(mode int, hooks *extension.Host, backend int) (*message.StoreManag
 	var err error
 	if backend == 1 {
 		// the file store, over the file-system model under the engine / a real temporary
-		// directory natively (left behind in the system temp dir; a few KiB per replayed case)
+		// directory natively (removed by VfsCleanup at the end of the harness)
 		st, err = file.New(config.Storage{Params: map[string]string{"path": vrf.VfsTempDir()}}, hooks)
 	} else {
 		st, err = mem.New(config.Storage{}, hooks)
@@ -76,6 +76,7 @@ func vrfCount(st storage.Store, box string) int {
 // the To list and subject, and its source is Return-Path + Received + body byte for byte with
 // Size() == len(source) (C01, C02). One stored event per stored message (C16).
 func VerifC01Deliver(mode int, r int, n int, backend int) {
+	defer vrf.VfsCleanup()
 	hooks := extension.NewHost()
 	var stored []event.MessageMetadata
 	hooks.Events.AfterMessageStored.AddListener("vrf", func(m event.MessageMetadata) {
